@@ -338,8 +338,14 @@ def run(ctx: Ctx) -> None:
 
 
 def alloc_rule(ctx: Ctx, rid: str) -> None:
-    """On a miss the block is fetched from lower memory before it is merged into / returned
-    (write-allocate and read-allocate must not invent block contents)."""
+    """On a miss the block is fetched from lower memory before it is merged into / allocated
+    (write-allocate and read-allocate must not invent block contents).
+
+    Decided on the normal form of the write-back stores and the two data `_read_block`s: the block operand of every
+    `*_into_block(..)` merge and every `cache.write_block(..)`, with the conditional values resolved under "the lookup missed"
+    (`cache.read_block(d) is None`), must be built from `_read_block_from_memory(d)` and from nothing the cache returned."""
+    from ..flowspec import _cond_ast, resolve_under
+    from ..parsershape import normal_flow
     m = ctx.model
     r = ctx.rule(rid, "a missing block is filled from lower memory before use")
     insts = []
@@ -348,36 +354,47 @@ def alloc_rule(ctx: Ctx, rid: str) -> None:
             insts.append(m.method(cn, n, own=True))
     insts.append(m.method("WriteThroughMemorySystem", "_read_block", own=True))
     for f in insts:
-        sn = f.params[0]
         key0 = short(f.qname)
-        for p in function_paths(f.node):
-            if p.term == "raise":
+        fl = normal_flow(m, f)
+        s0 = f.params[0]
+        # the lookup
+        looks = [e.expr for e in fl.effects if e.kind == "call" and isinstance(e.expr, ast.Call) and isinstance(e.expr.func, ast.Attribute)
+                 and e.expr.func.attr == "read_block" and fl.canon(e.expr.func.value).split("@")[0] == "P0.cache"]
+        if not looks:
+            raise AnalysisError(f"{rid}: {key0} no longer looks the block up with self.cache.read_block(..)")
+        miss = ast.Compare(left=looks[0], ops=[ast.Is()], comparators=[ast.Constant(value=None)])
+        n_ops = 0
+        for e in fl.effects:
+            if e.kind != "call" or not isinstance(e.expr, ast.Call):
                 continue
-            facts: set = set()
-            filled = False
-            relevant = False
-            bad = None
-            for e in p.events:
-                if e.kind == "test":
-                    facts |= facts_of(e.node, bool(e.pol))
-                miss = ("None is block_values", True) in facts
-                if e.kind == "stmt" and isinstance(e.node, ast.Assign) and ast.unparse(e.node.targets[0]) == "block_values" and miss:
-                    v = e.node.value
-                    if isinstance(v, ast.Call) and ast.unparse(v.func) == f"{sn}._read_block_from_memory" and \
-                            [ast.unparse(a) for a in v.args] == ["decoded_address"]:
-                        filled = True
-                    elif not filled:
-                        bad = (e.node, f"on a miss the block is taken from `{seg(f, v)}` instead of lower memory")
-                for x in event_exprs(e):
-                    for c in calls_in(x):
-                        nm = c.func.attr if isinstance(c.func, ast.Attribute) else ""
-                        if miss and (nm.endswith("_into_block") or (nm == "write_block" and self_attr(c.func.value, sn, "cache"))):
-                            relevant = True
-                            if not filled and bad is None:
-                                bad = (c, "on a miss the block is merged/allocated before it was fetched from lower memory")
-            if ("directly_write_to_lower_memory", True) in facts:
+            fn = e.expr.func
+            nm = fn.attr if isinstance(fn, ast.Attribute) else fn.id if isinstance(fn, ast.Name) else ""
+            is_merge = nm.endswith("_into_block")
+            is_alloc = nm == "write_block" and isinstance(fn, ast.Attribute) and fl.canon(fn.value).split("@")[0] == "P0.cache"
+            if not (is_merge or is_alloc):
                 continue
-            if ("None is block_values", True) in facts:
-                r.check(bad is None and filled, f"{key0}|miss", f.loc(bad[0]) if bad else f.loc(),
-                        f"{key0}: {bad[1] if bad else 'the miss path never fetches the block from lower memory'}", None, p.assumptions())
-    r.floor(5)
+            # can this effect happen on a miss at all?
+            pr = fl.cprinter
+            cb = pr._bool(_cond_ast(e.cond)) if e.cond else ("const", True)
+            t = pr._tables([pr._mk("and", [cb, pr._bool(miss)])])
+            if t is not None and t[1][0] == 0:
+                continue  # hit-only effect
+            n_ops += 1
+            under = ast.BoolOp(op=ast.And(), values=[_cond_ast(e.cond), miss]) if e.cond else miss
+            call = resolve_under(fl, e.expr, under)
+            args = list(call.args) + [k.value for k in call.keywords]
+            blocks = [a for a in args if any(isinstance(x, ast.Call) and isinstance(x.func, ast.Attribute) and x.func.attr in ("_read_block_from_memory", "read_block")
+                                             for x in ast.walk(a)) or isinstance(a, (ast.List, ast.ListComp))]
+            from_mem = any(isinstance(x, ast.Call) and isinstance(x.func, ast.Attribute) and x.func.attr == "_read_block_from_memory"
+                           and [fl.canon(y) for y in list(x.args) + [k.value for k in x.keywords]] == [fl.canon((looks[0].args + [k.value for k in looks[0].keywords])[0])]
+                           for a in blocks for x in ast.walk(a))
+            from_cache = any(isinstance(x, ast.Call) and isinstance(x.func, ast.Attribute) and x.func.attr == "read_block" for a in blocks for x in ast.walk(a))
+            r.check(from_mem and not from_cache, f"{key0}|miss|{nm}", f.loc(e.node), f"{key0}: on a miss `{nm}(..)` works on `{_clip(fl.show(blocks[0])) if blocks else '?'}`: "
+                    "the block must first be fetched from lower memory (`_read_block_from_memory(decoded_address)`)")
+        if n_ops == 0:
+            r.check(False, f"{key0}|miss", f.loc(), f"{key0}: the miss path never merges into / allocates a block fetched from lower memory")
+    r.floor(8)
+
+
+def _clip(t: str, n: int = 140) -> str:
+    return t if len(t) <= n else t[:n] + "..."
